@@ -157,6 +157,16 @@ Theorem C03_chain_further : forall (V : Type) (bin : binop -> V -> V -> V) (bin_
   e' = match op with CLt | CLe => (fst e, c) | CGt | CGe => (c, snd e) end.
 Proof. exact chain_spec. Qed.
 
+(* the verdict of an assertion is independent of the names under which its arithmetic operands keep their own
+   operands, i.e. of the caller's variable names (the code since d91c8d6: such a name can no longer collide with
+   an attribute of the compound object, so it is a name only; the correspondence runs comparisons written on
+   variables called left, _left, assertions, ... and compares the objects built) *)
+Theorem C03_operand_names_irrelevant : forall (V : Type) (bin : binop -> V -> V -> V) (bin_ok : binop -> V -> V -> bool)
+    (ltb leb : V -> V -> bool) (of_bool : bool -> V) (args : nat -> option V) (a b : assertion V),
+  erase_a V a = erase_a V b ->
+  holds V bin bin_ok ltb leb of_bool args a = holds V bin bin_ok ltb leb of_bool args b.
+Proof. exact names_irrelevant. Qed.
+
 Print Assumptions C03_levels_flat_partial.
 Print Assumptions C03_run_is_gate_partial.
 Print Assumptions C03_chain_all_links.
